@@ -395,3 +395,17 @@ def any_expr(draw, depth=3, nodes=ALL_COMPOSITE, containers=True, wild=True,
     return rec(depth)
 
 # }}}
+
+
+@st.composite
+def nested_containers(draw, inner):
+    """A spec in which expressions sit inside tuples / lists that are themselves elements of
+    a tuple with no expression among its direct elements (a[(i, j), 0], f(((i, 1), (j, 2)))):
+    *inner* is an expression spec placed at the deepest level."""
+    other = ["Var", draw(st.sampled_from(NAMES))]
+    c0 = ["Const", "int", draw(st.integers(0, 3))]
+    return draw(st.sampled_from((
+        ["Subscript", ["Var", "a_b"], ["Tuple", [["Tuple", [inner, other]], c0]]],
+        ["Call", ["Var", "f"], [["Tuple", [["Tuple", [inner, c0]], ["Tuple", [other, c0]]]]]],
+        ["Subscript", ["Var", "a_b"], ["Tuple", [c0, ["Tuple", [c0, ["Tuple", [inner]]]]]]],
+        ["Call", ["Var", "f"], [["Tuple", [c0, ["Tuple", [other, inner]]]], inner]])))
